@@ -664,6 +664,11 @@ func (r *yieldRewriter) rewriteReturnAndForSwitchInitStmtInYieldFun(body *ast.Bl
 				c.Replace(X.Return(r.CallReturn()))
 			}
 
+		case *ast.AssignStmt:
+			if inYieldFunc() {
+				r.rewritePartialRedeclare(c, n)
+			}
+
 		case *ast.ForStmt:
 			if inYieldFunc() && isDefineStmt(n.Init) {
 				init := n.Init
